@@ -12,53 +12,71 @@ func init() {
 	vndRegister("VerifC08SnapshotCut", VerifC08SnapshotCut)
 }
 
-// vCutLogger records, per commit in the order the commits reach the logger (= apply order per
-// block), the block, the writer's tag (column b) and the absolute value of column a.
+// vCutLogger records every commit in the order the commits reach the logger (= apply order per
+// block): the block and the (row, absolute value of a, writer tag) triples it carries.
 type vCutLogger struct {
 	mu    sync.Mutex
 	block []commit.Chunk
-	tag   []uint64
-	val   []uint64
+	n     []int
+	off   [][2]uint32
+	val   [][2]uint64
+	tag   [][2]uint64
 }
 
 func (l *vCutLogger) Append(c commit.Commit) error {
 	l.mu.Lock()
 	defer l.mu.Unlock()
-	var tag, val uint64
+	var off [2]uint32
+	var val, tag [2]uint64
+	n := 0
 	r := commit.NewReader()
 	for _, u := range c.Updates {
+		if u.Column != "a" && u.Column != "b" {
+			continue
+		}
 		r.Range(u, c.Chunk, func(r *commit.Reader) {
 			for r.Next() {
-				if u.Column == "a" {
-					val = r.Uint64()
+				k := 0
+				for k < n && off[k] != r.Index() {
+					k++
 				}
-				if u.Column == "b" {
-					tag = r.Uint64()
+				if k == n {
+					vndAssert(n < 2, "logger: more rows in a commit than the harness writes")
+					off[n] = r.Index()
+					n++
+				}
+				if u.Column == "a" {
+					val[k] = r.Uint64()
+				} else {
+					tag[k] = r.Uint64()
 				}
 			}
 		})
 	}
 	l.block = append(l.block, c.Chunk)
-	l.tag = append(l.tag, tag)
+	l.n = append(l.n, n)
+	l.off = append(l.off, off)
 	l.val = append(l.val, val)
+	l.tag = append(l.tag, tag)
 	return nil
 }
 
-// VerifC08SnapshotCut: a snapshot runs beside two writers (merges into one row per block, tagged
-// with the writer's number in a second column; single- and two-block transactions), switching at
-// the yield points of the commit and snapshot protocols. The restored value of each block's row
-// must be the state after some prefix of the commits applied to that block, the prefix containing
-// every commit acknowledged before Snapshot was called and nothing that reached the logger after
-// it returned; a and the tag come from the same prefix; Snapshot does not fail.
+// VerifC08SnapshotCut: a snapshot runs beside two writers that merge into DIFFERENT rows of block
+// 0 (writer 1 also into a row of block 1 when twoBlocks is set), each store tagged with the
+// writer's number in a second column; switches at the yield points of the commit and snapshot
+// protocols. After Restore every block must equal the primary's block after some prefix of the
+// commits applied to that block (apply order = order at the logger), the prefix containing every
+// commit acknowledged before Snapshot was called and nothing that reached the logger after it
+// returned; Snapshot does not fail.
 func VerifC08SnapshotCut() {
 	lg := &vCutLogger{}
-	w := vNewWorld(vndParam("cap"), vInt64, vndParam("fam"), Options{Writer: lg})
-	rows := [2]uint32{w.off[0], w.off[1]}
-	var init [2]uint64
-	for b := 0; b < 2; b++ {
-		init[b] = vndU64("init")
-		v := init[b]
-		w.c.QueryAt(rows[b], func(r Row) error {
+	w := vNewWorld(vndParam("cap"), vInt64, 6, Options{Writer: lg})
+	rows := [3]uint32{w.off[0], w.off[1], w.off[2]} // A, B in block 0; C in block 1
+	var init [3]uint64
+	for i := 0; i < 3; i++ {
+		init[i] = vndU64("init")
+		v := init[i]
+		w.c.QueryAt(rows[i], func(r Row) error {
 			r.SetInt64("a", int64(v))
 			r.SetInt64("b", 0)
 			return nil
@@ -68,12 +86,12 @@ func VerifC08SnapshotCut() {
 	two := vndParam("twoBlocks") == 1
 	var done [3]bool
 	var delta [3]uint64
-	writer := func(i int, blocks int) int {
+	writer := func(i int, targets []int) int {
 		delta[i] = vndU64("delta")
 		return vndGo(func() {
 			w.c.Query(func(txn *Txn) error {
-				for b := 0; b < blocks; b++ {
-					txn.QueryAt(rows[b], func(r Row) error {
+				for _, t := range targets {
+					txn.QueryAt(rows[t], func(r Row) error {
 						r.MergeInt64("a", int64(delta[i]))
 						r.SetInt64("b", int64(i))
 						return nil
@@ -84,12 +102,12 @@ func VerifC08SnapshotCut() {
 			done[i] = true
 		})
 	}
-	nb := 1
+	t1targets := []int{1}
 	if two {
-		nb = 2
+		t1targets = []int{1, 2}
 	}
-	t1 := writer(1, nb)
-	t2 := writer(2, 1)
+	t1 := writer(1, t1targets)
+	t2 := writer(2, []int{0})
 	dst := &commit.VBuf{}
 	var doneAtStart [3]bool
 	var lenAtReturn int
@@ -108,42 +126,59 @@ func VerifC08SnapshotCut() {
 
 	fresh := vSchema(w, vndParam("cap"), nil)
 	vndAssert(fresh.Restore(dst) == nil, "Restore failed")
-	for b := 0; b < 2; b++ {
-		var va, vb uint64
-		fresh.QueryAt(rows[b], func(r Row) error {
+	var ra, rb [3]uint64
+	for i := 0; i < 3; i++ {
+		fresh.QueryAt(rows[i], func(r Row) error {
 			a, oka := r.Int64("a")
 			t, okb := r.Int64("b")
 			vndAssert(oka && okb, "restored row lost a value")
-			va, vb = uint64(a), uint64(t)
+			ra[i], rb[i] = uint64(a), uint64(t)
 			return nil
 		})
-		// prefix states of this block, in apply order
-		ok := false
-		k := 0
-		kmin := 0
-		pos := 0
+	}
+	for blk := 0; blk < 2; blk++ {
+		chunk := commit.Chunk(blk)
+		// walk the prefix states of this block
+		sa := init
+		var sb [3]uint64
+		same := func() bool {
+			for i := 0; i < 3; i++ {
+				if commit.ChunkAt(rows[i]) == chunk && (ra[i] != sa[i] || rb[i] != sb[i]) {
+					return false
+				}
+			}
+			return true
+		}
+		kmin, pos := 0, 0
 		for e := base; e < len(lg.block); e++ {
-			if lg.block[e] != commit.ChunkAt(rows[b]) {
+			if lg.block[e] != chunk {
 				continue
 			}
 			pos++
-			if lg.tag[e] < 3 && doneAtStart[lg.tag[e]] {
+			t := lg.tag[e][0]
+			if t < 3 && doneAtStart[t] {
 				kmin = pos
 			}
 		}
-		if kmin == 0 && va == init[b] && vb == 0 {
-			ok = true
-		}
+		ok := kmin == 0 && same()
+		k := 0
 		for e := base; e < len(lg.block); e++ {
-			if lg.block[e] != commit.ChunkAt(rows[b]) {
+			if lg.block[e] != chunk {
 				continue
 			}
 			k++
-			if k >= kmin && e < lenAtReturn && va == lg.val[e] && vb == lg.tag[e] {
+			for j := 0; j < lg.n[e]; j++ {
+				for i := 0; i < 3; i++ {
+					if rows[i] == lg.off[e][j] {
+						sa[i], sb[i] = lg.val[e][j], lg.tag[e][j]
+					}
+				}
+			}
+			if k >= kmin && e < lenAtReturn && same() {
 				ok = true
 			}
 		}
-		vndAssert(ok, "the restored block is not the primary's block after a prefix of its commits (commit lost, partial, out of order, or outside the snapshot's window)")
+		vndAssert(ok, "a restored block is not the primary's block after a prefix of its commits (commit lost from the middle, partial, out of order, or outside the snapshot's window)")
 	}
 	vndObserveBool("two", two)
 }
